@@ -42,6 +42,8 @@ def _item(it) -> str:
 
 
 def spec_term(case, ob) -> str:
+    if "driver_error" in ob or ob.get("timeout"):
+        return "SNone"       # the harness could not observe this case: a correspondence alarm at most, never a failing input
     inner = _spec_term(case, ob)
     if case.get("must_assemble"):
         return f"(SAnd SAccept {inner})"
